@@ -3,6 +3,9 @@
 -/
 import BorshModel.Lemmas.MaxSize
 import BorshModel.Lemmas.Totality
+import BorshModel.Lemmas.MaxSound
+import BorshModel.Lemmas.Describes
+import BorshModel.Theorems.C01
 namespace Borsh
 
 /-- Exactness: whenever a maximum is reported for a container it *is* the true maximum the
@@ -98,5 +101,45 @@ theorem C09_error_iff (c : Container) :
     | panic p =>
       have := C09_never_panics c
       rw [hr] at this; simp [Res.isPanic] at this
+
+/-- **Soundness, every container**: whenever a maximum is reported, no byte string the schema
+describes (a reader that knows only the container walks it exactly to its end) is longer — for
+every container, hostile ones included.  `specMax`, the executable specification the exactness
+theorems speak about, is thereby an upper bound on *values*, not just a formula. -/
+theorem C09_sound_container (c : Container) (n : Nat) (bs : Bytes)
+    (hm : c.maxSerializedSize = .ok n) (hd : c.describes bs) : bs.length ≤ n := by
+  obtain ⟨fuel, hf⟩ := hd
+  have hs := C09_exact_when_ok c n hm
+  have := (sdec_bound c fuel c.decl (c.defs.length + 1) [] bs [] hf).2 n hs
+  simpa using this
+
+/-- … also when the value is followed by other data: the walk consumes at most the bound -/
+theorem C09_sound_stream (c : Container) (n fuel : Nat) (bs rest : Bytes)
+    (hm : c.maxSerializedSize = .ok n) (hf : sdec c fuel c.decl bs = some rest) :
+    rest.length ≤ bs.length ∧ bs.length - rest.length ≤ n := by
+  have hs := C09_exact_when_ok c n hm
+  obtain ⟨l, b⟩ := sdec_bound c fuel c.decl (c.defs.length + 1) [] bs rest hf
+  have := b n hs
+  exact ⟨l, by omega⟩
+
+/-- **Soundness for Rust types**: if the container binds every declaration of `t` as the schema
+impls intend (`Bnd`; `C08_builtin_bound` derives this from `for_type` for the built-in
+compositions), then no value of `t` serializes to more bytes than the reported maximum. -/
+theorem C09_sound_types (c : Container) (t : Ty) (hs : shapeOk t = true) (hw : WfTy t = true)
+    (hb : Bnd c t) (hd : c.decl = declOf t) (n : Nat) (hm : c.maxSerializedSize = .ok n)
+    (v : Val) (bs : Bytes) (hv : HasTy t v = true) (he : toVec t v = .ok bs) : bs.length ≤ n := by
+  obtain ⟨f, hf⟩ := describes_all c t hs hw hb
+  obtain ⟨hok, hbs⟩ := toVec_ok he
+  have h1 := hf f (Nat.le_refl f) v [] hv hok
+  have : c.describes bs := ⟨f, by rw [hd, ← hbs]; simpa using h1⟩
+  exact C09_sound_container c n bs hm this
+
+/-- non-vacuity: the container of `Vec<Option<u16>>`-like shape with a bounded range reports 4 + 3·3
+and a described string of that length exists -/
+example :
+    let c : Container := ⟨[65], [([65], .sequence 1 0 3 [66]),
+       ([66], .enum 1 [(0, [78], [40]), (1, [83], [117])]), ([40], .primitive 0), ([117], .primitive 2)]⟩
+    c.maxSerializedSize = .ok 10 ∧ sdec c 4 [65] [3, 1, 7, 7, 1, 8, 8, 1, 9, 9] = some [] := by
+  decide +kernel
 
 end Borsh
